@@ -62,6 +62,9 @@ type eLine struct {
 type eStep struct {
 	Outputs []eOutput `json:"outputs"`
 	Lines   []eLine   `json:"lines"` // the IO's inputs = what cat emits during this step
+	// Unsent: inputs of this step that the process never echoes: it has ended (cleanly, status 0) after the Lines of all
+	// steps so far (the process is `head -n <that many>` instead of cat); for the model the stream simply ends there
+	Unsent []eLine `json:"never_echoed,omitempty"`
 }
 
 type expectCase struct {
@@ -193,6 +196,9 @@ func (c *expectCase) session(T time.Duration) (*expect.Session, error) {
 		for _, l := range st.Lines {
 			iop.Inputs = append(iop.Inputs, l.Text)
 		}
+		for _, l := range st.Unsent {
+			iop.Inputs = append(iop.Inputs, l.Text)
+		}
 		for _, o := range st.Outputs {
 			out := expect.Output{Inverted: o.Inverted}
 			if c.ParsePatterns {
@@ -217,6 +223,19 @@ func (c *expectCase) session(T time.Duration) (*expect.Session, error) {
 		s.IOs = append(s.IOs, iop)
 	}
 	return s, nil
+}
+
+// headCount: -1 = the process is cat; otherwise the process ends after echoing this many lines
+func (c *expectCase) headCount() int {
+	k, cut := 0, false
+	for _, st := range c.Steps {
+		k += len(st.Lines)
+		cut = cut || len(st.Unsent) > 0
+	}
+	if !cut {
+		return -1
+	}
+	return k
 }
 
 // runExpect runs the session once with step timeout T.
@@ -263,6 +282,10 @@ func (c *expectCase) runExpect(T time.Duration) (verdict, errText string, elapse
 				done <- fmt.Errorf("panic: %v", r)
 			}
 		}()
+		if k := c.headCount(); k >= 0 {
+			done <- s.Run(ctx, "", "head", "-n", fmt.Sprint(k))
+			return
+		}
 		done <- s.Run(ctx, "", "cat")
 	}()
 	select {
@@ -699,6 +722,45 @@ func expectCorpus() []*expectCase {
 			`{"a":1,"pad":"`+strings.Repeat("q", 20000)+`"}`)),
 		eLit("corpus-long-line-noise", false, eStepLit([]eOutput{eOut(`{"a":1}`, none, false)},
 			strings.Repeat("noise ", 1000), `{"a":1}`)),
+		// the process ends cleanly while expectations are open: its silence is no answer
+		func() *expectCase {
+			c := eLit("corpus-process-ended", true, eStepLit([]eOutput{eOut(`{"a":1}`, none, false)}, `{"b":1}`))
+			c.Steps[0].Unsent = []eLine{jsonLine(map[string]interface{}{"a": 1.0})}
+			return c
+		}(),
+		func() *expectCase {
+			c := eLit("corpus-process-ended", false, eStepLit([]eOutput{eOut(`{"a":1}`, none, false)}, `{"a":1}`),
+				eStepLit([]eOutput{eOut(`{"b":1}`, none, false)}))
+			c.Steps[1].Unsent = []eLine{jsonLine(map[string]interface{}{"b": 1.0})}
+			return c
+		}(),
+		func() *expectCase {
+			c := eLit("corpus-process-ended", true, eStepLit([]eOutput{eOut(`{"a":1}`, none, false)}, `{"a":1}`),
+				eStepLit([]eOutput{eOut(`{"c":"?x"}`, none, false), eOut(`{"b":1}`, none, true)}))
+			c.Steps[1].Unsent = []eLine{jsonLine(map[string]interface{}{"c": 2.0})}
+			return c
+		}(),
+		// more outputs in one step than a word has bits: the last ones count like the first
+		func() *expectCase {
+			var outs []eOutput
+			var lines []string
+			for i := 0; i < 70; i++ {
+				outs = append(outs, eOut(fmt.Sprintf(`{"n":%d}`, i), none, false))
+				if i != 66 {
+					lines = append(lines, fmt.Sprintf(`{"n":%d}`, i))
+				}
+			}
+			return eLit("corpus-many-outputs", true, eStepLit(outs, lines...))
+		}(),
+		func() *expectCase {
+			var outs []eOutput
+			var lines []string
+			for i := 0; i < 70; i++ {
+				outs = append(outs, eOut(fmt.Sprintf(`{"n":%d}`, i), none, i == 68))
+				lines = append(lines, fmt.Sprintf(`{"n":%d}`, i))
+			}
+			return eLit("corpus-many-outputs", false, eStepLit(outs, lines...))
+		}(),
 		eLit("corpus-one-line-two-outputs", true, eStepLit([]eOutput{eOut(`{"a":1}`, none, false), eOut(`{"a":"?x"}`, none, false)}, `{"a":1}`)),
 	}
 }
